@@ -408,11 +408,6 @@ func finishRun(x *Exec, s *simrt.Sim, prop string) {
 	if s == nil {
 		return
 	}
-	if os.Getenv("CRSIM_STACKS") != "" && (x.Out.Class != "" || x.Out.Infra != "") {
-		buf := make([]byte, 1<<22)
-		n := runtime.Stack(buf, true)
-		fmt.Fprintf(os.Stderr, "goroutines at the end of the run:\n%s\n", buf[:n])
-	}
 	if len(s.Panics) > 0 && x.Out.Class == "" {
 		p := s.Panics[0]
 		kind := "panic"
@@ -430,11 +425,20 @@ func finishRun(x *Exec, s *simrt.Sim, prop string) {
 		} else if s.Reason() == "livelock" {
 			x.Out.Class = prop + ":livelock"
 			x.Out.Msg = "a relay task spins without ever blocking\n" + s.Describe()
+		} else if x.AllowCutShort && (s.Reason() == "max-steps" || s.Reason() == "horizon" || s.Reason() == "real-time budget") {
+			x.Out.Probes["run_cut_short."+s.Reason()]++
+			x.Out.Nontrivial = false
+			return
 		} else {
 			x.Out.Infra = "run did not finish: " + s.Reason() + "\n" + s.Describe()
 		}
 		x.Out.Log = s.Log()
 		x.Out.TaskDump = s.Describe()
+	}
+	if os.Getenv("CRSIM_STACKS") != "" && (x.Out.Class != "" || x.Out.Infra != "") {
+		buf := make([]byte, 1<<22)
+		n := runtime.Stack(buf, true)
+		fmt.Fprintf(os.Stderr, "goroutines at the end of the run:\n%s\n", buf[:n])
 	}
 }
 
